@@ -2,7 +2,7 @@
 unbounded-integer positions (no machine words anywhere). Used as an oracle for sequential cases
 (C04 'any single-threaded sequence yields what the sequential iterator yields', C16 boundaries, C19 slots)."""
 
-from cases import take_params
+from cases import take_params, take_plan
 
 W = 1 << 64
 
@@ -77,10 +77,11 @@ def expected_rets(case):
                 out.append(["ret", "end"])
             else:
                 a = e1 - b
-                sk, j = take_params(k, a)
+                sk, j = take_params(k, a) if "+nth:" not in k else (0, 0)
                 if j - sk > 1000000:
                     raise Unsupported("astronomic consumption")
-                out.append(["ret", "chunk", str(b), str(a), str(a - j)] + [str(val(p)) for p in range(b + sk, b + j)])
+                offs, j = take_plan(k, a)
+                out.append(["ret", "chunk", str(b), str(a), str(a - j)] + [str(val(b + o)) for o in offs])
         elif name == "bufnew":
             cnt = int(toks[1])
             if cnt == 0:
